@@ -17,6 +17,7 @@ pickle or clone internals (pickle is the identity of the modelled state by defin
 -/
 import FairModel.Lemmas.Lifecycle
 import FairModel.Model.LifecycleSrc
+import FairModel.Lemmas.LifecycleParams
 
 namespace C19
 open Lifecycle Lifecycle.Machine
@@ -541,6 +542,61 @@ example : (ADVsrc false).view advCls [.fit D1, .fit D2, .clone, .fit D2] =
     [(.retSelf, .fresh D1), (.retSelf, .fresh D2), (.ok, .unfitted), (.retSelf, .fresh D2)] := by decide +kernel
 
 end Src
+
+/-! ## histories with `set_params` between fits (`Model/LifecycleParams.lean`)
+
+`fit; set_params(p=v); fit` must equal `fresh(p=v).fit`.  `set_params` is `setattr` on the parameter only, so the
+clause holds for every history exactly when `fit` reads nothing that `__init__` derived from a parameter. -/
+
+section Params
+open LifecycleParams Generated.LifecycleSrc
+
+/-- an estimator whose `fit` reads only constructor parameters: for EVERY history over fit / predict / pickle /
+    clone / set_params it shows the specification's view — in particular a fit after `set_params(p=v)` gives the
+    model of a fresh estimator constructed with `p=v` -/
+theorem params_refines_spec (p0 : Nat) (ops : List POp) : view false p0 ops = specView p0 ops :=
+  view_false_eq_spec p0 ops
+
+/-- the specification's own content: after any history, `fit d` leaves "fresh twin on d with the parameter value
+    of the last `set_params`" -/
+theorem spec_fit_uses_current_params (p0 : Nat) (ops : List POp) (d : Data) :
+    pspecCls (runWith pspecStep ⟨p0, none⟩ (ops ++ [.fit d])) = .fresh d (currentParam p0 ops) := by
+  rw [runWith_snoc]
+  show PCls.fresh d (runWith pspecStep ⟨p0, none⟩ ops).param = _
+  rw [spec_param]
+
+/-- an estimator whose `fit` reads an attribute derived in `__init__`: 2-operation witness
+    `set_params(p=v1); fit(D1)` is like no fresh twin; `clone` (which re-runs `__init__`) heals it -/
+theorem params_stale_derived_not_spec : ¬ ∀ ops, view true 0 ops = specView 0 ops := by
+  intro h; exact absurd (h [.setParam 1, .fit D1]) (by decide)
+
+example : view true 0 [.setParam 1, .fit D1] = [(.ok, .unfitted), (.retSelf, .other)] := by decide
+example : view true 0 [.setParam 1, .clone, .fit D1] = [(.ok, .unfitted), (.ok, .unfitted), (.retSelf, .fresh D1 1)] := by
+  decide
+example : view false 0 [.fit D1, .setParam 1, .predict, .fit D2, .setParam 0, .fit D1] =
+    [(.retSelf, .fresh D1 0), (.ok, .fresh D1 0), (.ok, .fresh D1 0), (.retSelf, .fresh D2 1), (.ok, .fresh D2 1),
+     (.retSelf, .fresh D1 0)] := by decide
+
+/-- from the source: ThresholdOptimizer, ExponentiatedGradient, CorrelationRemover and the adversarial estimators
+    read no parameter-derived attribute in `fit` (what their `__init__` derives depends on no parameter) … -/
+theorem src_no_stale_derived :
+    ∀ c ∈ [EstCls.TO, .EG, .CR, .ADV, .ADVC, .ADVR], staleAfterSetParams c = [] := by decide +kernel
+
+/-- … so their `set_params` histories refine the specification -/
+theorem src_params_refines_spec (c : EstCls) (hc : c ∈ [EstCls.TO, .EG, .CR, .ADV, .ADVC, .ADVR]) (p0 : Nat)
+    (ops : List POp) : view (readsDerivedSrc c) p0 ops = specView p0 ops := by
+  have h : readsDerivedSrc c = false := by
+    unfold readsDerivedSrc; rw [src_no_stale_derived c hc]; rfl
+  rw [h]; exact view_false_eq_spec p0 ops
+
+/-- FINDING F5f (known, kept visible): `GridSearch.fit` reads `objective_weight`, which `__init__` computed as
+    `1.0 - constraint_weight` and `set_params(constraint_weight=…)` does not update -/
+theorem src_gs_stale_objective_weight :
+    staleAfterSetParams .GS = ["objective_weight"] ∧
+    view (readsDerivedSrc .GS) 0 [.setParam 1, .fit D1] = [(.ok, .unfitted), (.retSelf, .other)] := by
+  decide +kernel
+
+end Params
 
 /-! ## the specification itself carries the clauses of the property -/
 
